@@ -86,6 +86,14 @@ fn build_all<C: CellType>(code: &str, levels: &[u32], out: &mut C11Out) -> Vec<B
     v
 }
 
+/// Scheduling aid for the pre-screen: any structural finding or static suspicion in the bytecode
+/// of levels 0..3, both generator settings, 8-bit cells.
+pub fn static_screen(code: &str) -> bool {
+    let mut out = C11Out::default();
+    let built = build_all::<u8>(code, &[0, 1, 2, 3], &mut out);
+    built.iter().any(|b| !bcval::structural(&b.prog, b.regs, b.fuse).is_empty() || bcval::static_suspect(&b.prog, b.regs))
+}
+
 pub struct Cfg {
     pub limits: Limits,
     pub ref_steps: u64,
